@@ -4,9 +4,10 @@
 //! stepped through the same history.  The explorer enumerates ALL histories over the alphabet below to the
 //! stated depth; one pool case = (initial file, first operation).  `save` is an operation: it is evaluated
 //! on every expanded state and its successor is the saved book (a save may change shared tables).
-//! Because `Spreadsheet::clone` shares the shared-string table (an Arc) and a save writes to it, a save is
-//! never executed on an object that other nodes were cloned from: the node's history is replayed on fresh
-//! objects first (the replay must reproduce the node's key, otherwise the run reports a harness failure).
+//! `Spreadsheet::clone` shares the shared-string table (an Arc), and a save may write to shared state (it grew
+//! that table until the library's fix 5ef43dc), so a save is never executed on an object that other nodes were
+//! cloned from: the node's history is replayed on fresh objects first (the replay recomputes every projection
+//! and must reproduce the node's key, otherwise the run reports clause harness-replay).
 use crate::common::*;
 use crate::dump::*;
 use crate::e1::*;
@@ -108,6 +109,79 @@ pub struct PartInfo {
     pub has_rels: bool,
     /// N of every xl/tables/tableN.xml the sheet's relationship part points to
     pub table_parts: Vec<u32>,
+    /// sheet names that the <c:f> references of the sheet's charts name (sheet -> drawing -> chart parts)
+    pub chart_refs: Vec<String>,
+}
+
+/// Resolve a relationship target against the directory of the part that owns the relationship part.
+fn resolve(dir: &str, target: &str) -> String {
+    if let Some(abs) = target.strip_prefix('/') {
+        return abs.to_string();
+    }
+    let mut segs: Vec<&str> = dir.split('/').filter(|x| !x.is_empty()).collect();
+    for t in target.split('/') {
+        match t {
+            ".." => {
+                segs.pop();
+            }
+            "." | "" => {}
+            x => segs.push(x),
+        }
+    }
+    segs.join("/")
+}
+fn rels_of(z: &mut zip::ZipArchive<std::io::Cursor<&[u8]>>, part: &str) -> Vec<(String, String)> {
+    let file = part.rsplit('/').next().unwrap_or("");
+    let dir = &part[..part.len() - file.len()];
+    let rel_name = format!("{}_rels/{}.rels", dir, file);
+    let xml = zip_read(z, &rel_name).unwrap_or_default();
+    elements(&xml, b"Relationship")
+        .iter()
+        .filter(|e| xattr(e, b"TargetMode").as_deref() != Some("External"))
+        .filter_map(|e| Some((xattr(e, b"Type")?, resolve(dir, &xattr(e, b"Target")?))))
+        .collect()
+}
+fn texts_of(xml: &[u8], local: &[u8]) -> Vec<String> {
+    let mut rd = quick_xml::Reader::from_reader(xml);
+    let mut out = vec![];
+    let mut inside = false;
+    loop {
+        match rd.read_event() {
+            Ok(quick_xml::events::Event::Eof) | Err(_) => break,
+            Ok(quick_xml::events::Event::Start(e)) => inside = e.local_name().as_ref() == local,
+            Ok(quick_xml::events::Event::End(_)) => inside = false,
+            Ok(quick_xml::events::Event::Text(t)) => {
+                if inside {
+                    if let Ok(c) = t.unescape() {
+                        out.push(c.to_string());
+                    }
+                }
+            }
+            _ => {}
+        }
+    }
+    out
+}
+fn chart_refs_of(z: &mut zip::ZipArchive<std::io::Cursor<&[u8]>>, sheet_part: &str) -> Vec<String> {
+    let mut names = BTreeSet::new();
+    for (ty, drawing) in rels_of(z, sheet_part) {
+        if !ty.ends_with("/drawing") {
+            continue;
+        }
+        for (ty2, chart) in rels_of(z, &drawing) {
+            if !ty2.ends_with("/chart") {
+                continue;
+            }
+            let xml = zip_read(z, &chart).unwrap_or_default();
+            for f in texts_of(&xml, b"f") {
+                if let Some(pos) = f.rfind('!') {
+                    let n = f[..pos].trim_matches('\'').replace("''", "'");
+                    names.insert(n);
+                }
+            }
+        }
+    }
+    names.into_iter().collect()
 }
 
 fn zip_read(z: &mut zip::ZipArchive<std::io::Cursor<&[u8]>>, name: &str) -> Option<Vec<u8>> {
@@ -170,7 +244,8 @@ pub fn sheet_parts(bytes: &[u8]) -> Vec<PartInfo> {
             .filter_map(|e| xattr(e, b"Target"))
             .filter_map(|t| t.rsplit('/').next().and_then(|f| f.strip_prefix("table")).and_then(|r| r.strip_suffix(".xml")).and_then(|d| d.parse::<u32>().ok()))
             .collect();
-        out.push(PartInfo { name, part, part_no, has_rels, table_parts });
+        let chart_refs = chart_refs_of(&mut z, &part);
+        out.push(PartInfo { name, part, part_no, has_rels, table_parts, chart_refs });
     }
     out
 }
@@ -234,11 +309,22 @@ fn gen_inits() -> Vec<Init> {
 /// Multi-sheet corpus files that both readers accept, smallest first.
 fn corpus_all() -> &'static Vec<Arc<Init>> {
     static ALL: OnceLock<Vec<Arc<Init>>> = OnceLock::new();
-    ALL.get_or_init(|| {
+    ALL.get_or_init(|| corpus_upto(u64::MAX))
+}
+/// The quick tier only looks at files of at most 64 KiB (loading the big ones costs seconds per worker).
+fn corpus_quick() -> &'static Vec<Arc<Init>> {
+    static Q: OnceLock<Vec<Arc<Init>>> = OnceLock::new();
+    Q.get_or_init(|| corpus_upto(65_536))
+}
+fn corpus_upto(max_bytes: u64) -> Vec<Arc<Init>> {
+    {
         let mut files: Vec<(u64, String)> = crate::c02::corpus_files().into_iter().map(|p| (std::fs::metadata(&p).map(|m| m.len()).unwrap_or(0), p)).collect();
         files.sort();
         let mut v = vec![];
-        for (_, p) in files {
+        for (len, p) in files {
+            if len > max_bytes {
+                continue;
+            }
             let bytes = match std::fs::read(&p) {
                 Ok(b) => b,
                 Err(_) => continue,
@@ -268,7 +354,7 @@ fn corpus_all() -> &'static Vec<Arc<Init>> {
             v.push(Arc::new(Init::new(format!("corpus:{}", file), bytes, parts, tags, &eager)));
         }
         v
-    })
+    }
 }
 
 fn inits_for(id: &str) -> &'static Vec<Arc<Init>> {
@@ -277,14 +363,29 @@ fn inits_for(id: &str) -> &'static Vec<Arc<Init>> {
     static NORMAL: OnceLock<Vec<Arc<Init>>> = OnceLock::new();
     static HEAVYS: OnceLock<Vec<Arc<Init>>> = OnceLock::new();
     static WIDE: OnceLock<Vec<Arc<Init>>> = OnceLock::new();
+    static FEATURES: OnceLock<Vec<Arc<Init>>> = OnceLock::new();
     match id {
         "gen" => GENS.get_or_init(|| gen_inits().into_iter().map(Arc::new).collect()),
-        // quick: the 3 smallest light multi-sheet files + the 3 smallest further ones in which a sheet has relationships
+        // quick: the 3 smallest light multi-sheet files (<= 4 sheets) + the 3 smallest further ones in which a sheet has relationships
         "corpus-small" => SMALL.get_or_init(|| {
-            let light: Vec<&Arc<Init>> = corpus_all().iter().filter(|i| i.weight <= HEAVY && i.nsheets <= 4).collect();
+            let light: Vec<&Arc<Init>> = corpus_quick().iter().filter(|i| i.weight <= HEAVY && i.nsheets <= 4).collect();
             let mut v: Vec<Arc<Init>> = light.iter().take(3).map(|i| (*i).clone()).collect();
             for i in light.iter().skip(3).filter(|i| i.parts.iter().filter(|p| p.has_rels).count() >= 1).take(3) {
                 v.push((*i).clone());
+            }
+            v
+        }),
+        // quick, smaller depth: the smallest file with a chart that refers to another sheet + the smallest with tables on two sheets
+        "corpus-features" => FEATURES.get_or_init(|| {
+            let light: Vec<&Arc<Init>> = corpus_quick().iter().filter(|i| i.weight <= HEAVY && i.nsheets <= 4).collect();
+            let mut v: Vec<Arc<Init>> = vec![];
+            if let Some(i) = light.iter().find(|i| i.parts.iter().any(|p| p.chart_refs.iter().any(|r| *r != p.name))) {
+                v.push((*i).clone());
+            }
+            if let Some(i) = light.iter().find(|i| i.tables.iter().filter(|t| **t > 0).count() >= 2) {
+                if !v.iter().any(|x| x.name == i.name) {
+                    v.push((*i).clone());
+                }
             }
             v
         }),
@@ -314,7 +415,7 @@ impl Op {
         match self {
             Op::Read(i) => json!({"op": "read_sheet", "i": i}),
             Op::ReadAll => json!({"op": "read_sheet_collection"}),
-            Op::MutText(i) => json!({"op": "get_sheet_mut+set_text", "i": i, "cell": "A2", "text": EDIT_TEXT}),
+            Op::MutText(i) => json!({"op": "get_sheet_mut+set_text+add_comment", "i": i, "cell": "A2", "text": EDIT_TEXT, "comment_at": "F6"}),
             Op::NameNum(i) => json!({"op": "get_sheet_by_name_mut+set_number_styled", "i": i, "cell": "C3", "number": 42.5}),
             Op::Rename(i) => json!({"op": "set_sheet_name", "i": i}),
             Op::WbInsert(i) => json!({"op": "insert_new_row(name_of(i),1,1)", "i": i}),
@@ -339,7 +440,7 @@ impl Op {
 }
 const EDIT_TEXT: &str = "lazy edit <&> text";
 const NEW_TEXT: &str = "text of a new sheet";
-const MAX_SHEETS: usize = 6;
+const MAX_SHEETS: usize = 64;
 
 fn ops_for(n: usize) -> Vec<Op> {
     let mut v = vec![];
@@ -408,6 +509,13 @@ fn apply(b: &mut Spreadsheet, op: &Op) -> String {
         Op::MutText(i) => match b.get_sheet_mut(i) {
             Some(ws) => {
                 ws.get_cell_mut("A2").set_value_string(EDIT_TEXT);
+                // the edit also needs a NEW numbered dependent part (comments + vmlDrawing): its name must not
+                // collide with a part that a still unloaded sheet owns
+                let mut c = Comment::default();
+                c.new_comment("F6");
+                c.set_author("lazy editor");
+                c.set_text_string("note added to a materialised sheet");
+                ws.add_comments(c);
                 "ok".into()
             }
             None => "none".into(),
@@ -531,6 +639,8 @@ pub struct C11Machine<'a> {
     /// what is compared: FULL, or (heavy files) everything but styles
     opts: Opts,
     counters: std::cell::RefCell<BTreeMap<String, u64>>,
+    /// false while a history is replayed silently (the cell stream was checked when the step was first taken)
+    stream_check: std::cell::Cell<bool>,
     /// accumulated microseconds per phase (development aid; never part of a verdict)
     timers: std::cell::RefCell<BTreeMap<String, u64>>,
     obs: std::cell::RefCell<Vec<u64>>,
@@ -539,7 +649,7 @@ pub struct C11Machine<'a> {
 impl<'a> C11Machine<'a> {
     fn new(init: &'a Init, depth: usize) -> Self {
         let opts = if init.weight > HEAVY { Opts { styles: false, annotations: true, dims: true } } else { Opts::FULL };
-        C11Machine { init, depth, opts, counters: Default::default(), timers: Default::default(), obs: Default::default() }
+        C11Machine { init, depth, opts, stream_check: std::cell::Cell::new(true), counters: Default::default(), timers: Default::default(), obs: Default::default() }
     }
     fn count(&self, k: &str) {
         *self.counters.borrow_mut().entry(k.to_string()).or_insert(0) += 1;
@@ -628,6 +738,30 @@ impl<'a> C11Machine<'a> {
                 }
             }
         }
+        // the chart writer reads the cells that a chart's series name, through the asserting accessor
+        for i in 0..n {
+            if !s.mat.get(i).copied().unwrap_or(true) {
+                continue;
+            }
+            if let Some(p) = s.model[i].orig.and_then(|o| self.init.parts.get(o)) {
+                for r in &p.chart_refs {
+                    let target = self.init.parts.iter().position(|q| &q.name == r);
+                    match target.and_then(|o| s.model.iter().position(|m| m.orig == Some(o))) {
+                        Some(j) => {
+                            if !s.mat.get(j).copied().unwrap_or(true) {
+                                t.insert("materialised-chart-refers-to-unloaded-sheet".into());
+                            }
+                            if s.hist.iter().any(|o| matches!(o, Op::Rename(_))) && sheet_names(&s.twin).get(j).map(|x| x != r).unwrap_or(false) {
+                                t.insert("chart-refers-to-renamed-sheet".into());
+                            }
+                        }
+                        None => {
+                            t.insert("chart-refers-to-removed-sheet".into());
+                        }
+                    }
+                }
+            }
+        }
         if !s.removed.is_empty() {
             t.insert("removed-sheet".into());
         }
@@ -710,7 +844,7 @@ impl<'a> C11Machine<'a> {
                 }
                 keyparts.push(json!({"mat": true, "twin": format!("{:032x}", th), "lazy": format!("{:032x}", lh)}));
             } else {
-                if full {
+                if full && self.stream_check.get() {
                     // read-only access to an unloaded sheet: the cell stream must show the eager sheet's cells
                     // (values, formulas, styles; hyperlinks are not part of the stream)
                     self.check_cell_stream(s, i, &ln[i], out);
@@ -833,7 +967,7 @@ impl<'a> C11Machine<'a> {
             }
             (Err(_), Err(_)) => {
                 // the operation itself is broken in the same way without laziness: outside this property
-                self.count("op_panics_on_both");
+                self.count(&format!("op_panics_on_both:{}", op.name()));
                 return None;
             }
             (Ok(a), Ok(b)) => {
@@ -844,7 +978,7 @@ impl<'a> C11Machine<'a> {
                     return None;
                 }
                 if a != "ok" {
-                    self.count("op_refused_on_both");
+                    self.count(&format!("op_refused_on_both:{}", op.name()));
                     return None;
                 }
             }
@@ -865,6 +999,12 @@ impl<'a> C11Machine<'a> {
 
     /// Fresh objects for the history of `s` (no oracle: every step was checked when it was first taken).
     fn rebuild(&self, s: &St) -> Result<St, String> {
+        self.stream_check.set(false);
+        let r = self.rebuild_inner(s);
+        self.stream_check.set(true);
+        r
+    }
+    fn rebuild_inner(&self, s: &St) -> Result<St, String> {
         let mut cur = self.init_state()?;
         for op in &s.hist {
             let mut sink = vec![];
@@ -948,7 +1088,7 @@ impl<'a> C11Machine<'a> {
         };
         let ln = sheet_names(&lre);
         let tn = sheet_names(&tre);
-        self.obs.borrow_mut().push(fnv(format!("{:?}{:?}", ln, cur.mat).as_bytes()) ^ fnv(&lbytes.len().to_le_bytes()));
+        self.obs.borrow_mut().push(fnv(format!("{:?}{:?}{:?}", ln, cur.mat, zip_names(lbytes)).as_bytes()));
         if ln != tn {
             let sym = if ln.len() != tn.len() { "sheet-count" } else { "sheet-name-or-order" };
             out.push(self.viol(cur, "saved-content-equals-eager", sym, &[], format!("reloaded lazy save has sheets {:?}, reloaded eager save {:?}", ln, tn)));
@@ -986,6 +1126,13 @@ impl<'a> C11Machine<'a> {
         if let Some((path, l, r)) = first_diff(&lb, &tb) {
             out.push(self.viol(cur, "saved-content-equals-eager", &format!("book:{}", diff_symptom(&path, &l, &r)), &[], format!("workbook level after reload differs at {}: lazy save {} / eager save {}", path, l, r)));
         }
+    }
+}
+
+fn zip_names(bytes: &[u8]) -> Vec<String> {
+    match zip::ZipArchive::new(std::io::Cursor::new(bytes)) {
+        Ok(z) => z.file_names().map(|s| s.to_string()).collect::<BTreeSet<_>>().into_iter().collect(),
+        Err(_) => vec![],
     }
 }
 
@@ -1093,6 +1240,14 @@ impl Space for Hist {
         for (k, n) in m.counters.borrow().iter() {
             sink.count(k, *n);
         }
+        if std::env::var("UV_C11_CLASSES").is_ok() {
+            // development aid: complete list of (clause, symptom, cause tags) classes in the evidence counters
+            const CAUSES: [&str; 9] = ["unloaded-renumbered-sheet-has-rels", "materialised-table-number-taken-by-unloaded-sheet", "materialised-chart-refers-to-unloaded-sheet", "chart-refers-to-renamed-sheet", "chart-refers-to-removed-sheet", "removed-sheet", "renamed", "new-sheet", "wb-insert"];
+            let keys: Vec<String> = sink.violations.iter().map(|v| format!("class|{}|{}|{:?}", v.clause, v.symptom, CAUSES.iter().filter(|c| v.tags.iter().any(|t| t == *c)).collect::<Vec<_>>())).collect();
+            for k in keys {
+                sink.count(&k, 1);
+            }
+        }
         for h in m.obs.borrow().iter() {
             sink.hashes.push(*h);
         }
@@ -1106,6 +1261,7 @@ fn space_cfg(tier: Tier, id: &str) -> Option<Hist> {
     match (tier, id) {
         (Tier::Quick, "gen") => Some(Hist::new("gen", 3)),
         (Tier::Quick, "corpus-small") => Some(Hist::new("corpus-small", 3)),
+        (Tier::Quick, "corpus-features") => Some(Hist::new("corpus-features", 2)),
         (Tier::Thorough, "gen") => Some(Hist::new("gen", 4)),
         (Tier::Thorough, "corpus") => Some(Hist::new("corpus", 3)),
         (Tier::Thorough, "corpus-big") => Some(Hist::new("corpus-big", 2)),
@@ -1243,7 +1399,7 @@ fn run(ctx: &Ctx) -> i32 {
         return repro();
     }
     let thorough = ctx.tier == Tier::Thorough;
-    let ids: Vec<&'static str> = if thorough { vec!["gen", "corpus", "corpus-big", "corpus-big-wide"] } else { vec!["gen", "corpus-small"] };
+    let ids: Vec<&'static str> = if thorough { vec!["gen", "corpus", "corpus-big", "corpus-big-wide"] } else { vec!["gen", "corpus-small", "corpus-features"] };
     let spaces: Vec<(&'static str, Box<dyn Space>)> = ids.iter().map(|id| (*id, space(ctx.tier, id).unwrap())).collect();
     let files: BTreeMap<&str, Vec<Value>> = ids.iter().map(|id| (*id, inits_for(id).iter().map(|i| json!({"file": i.name, "sheets": i.nsheets, "bytes": i.bytes.len(), "sheet_parts": i.parts.iter().map(|p| json!([p.part, p.has_rels])).collect::<Vec<_>>() })).collect())).collect();
     let bounds: Value = ids.iter().map(|id| (id.to_string(), json!(format!("all histories of length <= {} from every initial file of this space", space_cfg(ctx.tier, id).unwrap().depth)))).collect::<serde_json::Map<String, Value>>().into();
@@ -1253,9 +1409,9 @@ fn run(ctx: &Ctx) -> i32 {
             spaces,
             cfg: PoolCfg { chunk: 1, case_timeout: std::time::Duration::from_secs(300), keep_per_class: 2, ..Default::default() },
             level: "model_checking",
-            rule: "breadth-first enumeration of ALL operation histories up to the stated depth from every initial file opened lazily (read_reader(..,false)); one pool case = (file, first operation). A node carries the real lazy Spreadsheet and its eager twin (read_reader(..,true) of the same bytes), both cloned from the parent and stepped with the same operation. After every step: same call outcome, no panic on the lazy book only, equal sheet lists, every materialised sheet of the lazy book has the same FULL projection (dump::sheet_p) as the twin's sheet, accessed sheets are materialised. `save` is an operation evaluated on every expanded state (so every state of depth < D is saved, and histories continue after a save): the history is replayed on fresh objects (clones share the string table), both books are written to memory, the lazy package must be written, pass the independent Python validator, reload eagerly, and its reload must equal the reload of the twin's package sheet by sheet (FULL projection; an unloaded sheet may alternatively equal the eager load of the original exactly) and at workbook level. Two nodes are merged iff sheet names, per-sheet materialised flag, the twin's FULL projection of every sheet (and the lazy one where it differs), the history-shape model (origin of every sheet, accessed/renamed-while-unloaded/edited flags, removed originals, number and positions of earlier saves) are equal. states = distinct keys; distinct_nontrivial additionally counts distinct (sheet list, materialised set, package size) of checked saves".into(),
+            rule: "breadth-first enumeration of ALL operation histories up to the stated depth from every initial file opened lazily (read_reader(..,false)); one pool case = (file, first operation). A node carries the real lazy Spreadsheet and its eager twin (read_reader(..,true) of the same bytes), both cloned from the parent and stepped with the same operation. After every step: same call outcome, no panic on the lazy book only, equal sheet lists, every materialised sheet of the lazy book has the same FULL projection (dump::sheet_p) as the twin's sheet, accessed sheets are materialised. `save` is an operation evaluated on every expanded state (so every state of depth < D is saved, and histories continue after a save): the history is replayed on fresh objects (clones share the string table), both books are written to memory, the lazy package must be written, pass the independent Python validator, reload eagerly, and its reload must equal the reload of the twin's package sheet by sheet (FULL projection; an unloaded sheet may alternatively equal the eager load of the original exactly) and at workbook level. Two nodes are merged iff sheet names, per-sheet materialised flag, the twin's FULL projection of every sheet (and the lazy one where it differs), the history-shape model (origin of every sheet, accessed/renamed-while-unloaded/edited flags, removed originals, number and positions of earlier saves) are equal. states = distinct keys; distinct_nontrivial additionally counts distinct (sheet list, materialised set, part-name list of the written package) of checked saves".into(),
             alphabets: json!({
-                "operations(n sheets)": "read_sheet(i), read_sheet_collection, get_sheet_mut(i)+set text A2, get_sheet_by_name_mut(name i)+set styled number C3, set_sheet_name(i, fresh), insert_new_row(name i,1,1), new_sheet(fresh)+2 cells (n<6), remove_sheet(i) (n>=2), save  = 6n+3 operations",
+                "operations(n sheets)": "read_sheet(i), read_sheet_collection, get_sheet_mut(i)+set text A2, get_sheet_by_name_mut(name i)+set styled number C3, set_sheet_name(i, fresh), insert_new_row(name i,1,1), new_sheet(fresh)+2 cells, remove_sheet(i) (n>=2), save  = 6n+3 operations",
                 "generated_files": GEN.iter().map(|g| json!({"name": g.0, "sheet_features": g.1.iter().map(|m| (0..8).filter(|k| m & (1 << k) != 0).map(|k| FEATURE_NAMES[k]).collect::<Vec<_>>()).collect::<Vec<_>>(), "defined_names": g.2})).collect::<Vec<_>>(),
                 "initial_files": files,
             }),
